@@ -19,6 +19,7 @@ structure NodeSnap where
   nh : Int := 0
   obs : Nat := 0
   ch : List Nat := []
+  refs : List Nat := []
 deriving Repr, Inhabited
 
 structure ActionRec where
@@ -61,7 +62,10 @@ def parseSnap (payload : String) : Option NodeSnap := do
          nh := geti "nh", obs := (((kvs.lookup "obs").bind String.toNat?).getD 0),
          ch := (let t := (kvs.lookup "ch").getD "[]"
                 let inner := ((t.drop 1).dropEnd 1).toString
-                if inner.isEmpty then [] else (inner.splitOn ",").filterMap String.toNat?) }
+                if inner.isEmpty then [] else (inner.splitOn ",").filterMap String.toNat?),
+         refs := (let t := (kvs.lookup "refs").getD "[]"
+                  let inner := ((t.drop 1).dropEnd 1).toString
+                  if inner.isEmpty then [] else (inner.splitOn ",").filterMap String.toNat?) }
 
 def parseReads (payload : String) : List (Nat × String) :=
   -- `o0=ok 4 o1=err NeverStabilised o2=gone`
